@@ -65,7 +65,9 @@ class Net:
                     break
         if fault:
             w.stats["fault:" + fault] += 1
-            w.log("fault", n, fault, wire_id)
+            site = w.ctx_site()
+            w.log("fault", n, fault, wire_id, kind, site)
+            w.fault_sites.append((n, fault, kind, site))
         return n, fault
 
     def lat(self, wid):
@@ -97,6 +99,8 @@ class Net:
         if fault == "connect_timeout" and deadline is None:
             fault = "connect_error"
         if fault == "connect_timeout" or (deadline is not None and start + lat > deadline):
+            if fault != "connect_timeout":
+                w.stats["fault:natural_timeout"] += 1
             if deadline > w.now:
                 yield deadline
             while w.now < deadline:
@@ -140,6 +144,7 @@ class Wire:
         self.peer_closed = False     # server will not read any more
         self.nread = 0               # bytes delivered to the client
         self.nsent = 0               # bytes delivered to the server
+        self.npushed = 0             # bytes the server has queued so far
         self._last_push = 0.0
         w.log("wire_open", self.id, endpoint, self.opened_by)
         peer.attach(self)
@@ -147,12 +152,15 @@ class Wire:
         w.changed()
 
     # -- server side ----------------------------------------------------------
-    def push(self, t, data):
-        """Server -> client item, available at time t (kept FIFO)."""
+    def push(self, t, data, atomic=False):
+        """Server -> client item, available at time t (kept FIFO).  An atomic item is
+        never coalesced with others nor cut (unless larger than max_bytes)."""
         t = max(t, self._last_push)
         self._last_push = t
         if data is EOF or data is RESET or data:
-            self.inq.append([t, data])
+            self.inq.append([t, data, atomic])
+            if data is not EOF and data is not RESET:
+                self.npushed += len(data)
 
     def notify(self):
         ws, self.waiters = self.waiters, []
@@ -193,6 +201,7 @@ class Wire:
         while first or w.now < t:
             first = False
             if deadline is not None and t > deadline:
+                w.stats["fault:natural_timeout"] += 1
                 while w.now < deadline:
                     yield deadline
                 raise WireError("read_timeout")
@@ -204,7 +213,7 @@ class Wire:
             raise WireError("read_error", "injected")
         if fault == "eof":
             # the server side vanishes: pending output is lost, FIN arrives now
-            self.inq = [[w.now, EOF]]
+            self.inq = [[w.now, EOF, False]]
             self.peer_closed = True
             self.peer.on_abort(w.now)
         while True:
@@ -224,6 +233,7 @@ class Wire:
                 w.log("s2c", self.id, n, data)
                 return data
             if deadline is not None and w.now >= deadline:
+                w.stats["fault:natural_timeout"] += 1
                 raise WireError("read_timeout")
             c = self._next_times()
             if deadline is not None:
@@ -234,14 +244,17 @@ class Wire:
         w = self.w
         mode = self.net.seg
         # gather what is available now
-        if mode == "segment":
+        if self.inq[0][2]:
+            avail = self.inq[0][1]
+            k = min(len(avail), max_bytes)
+        elif mode == "segment":
             avail = self.inq[0][1]
             k = min(len(avail), max_bytes)
         else:
             parts = []
             tot = 0
-            for t, d in self.inq:
-                if t > w.now or d is EOF or d is RESET or tot >= max_bytes:
+            for t, d, at in self.inq:
+                if t > w.now or d is EOF or d is RESET or at or tot >= max_bytes:
                     break
                 parts.append(d)
                 tot += len(d)
@@ -271,7 +284,7 @@ class Wire:
         out = []
         need = k
         while need > 0:
-            t, d = self.inq[0]
+            t, d, _at = self.inq[0]
             if len(d) <= need:
                 out.append(d)
                 need -= len(d)
@@ -297,6 +310,8 @@ class Wire:
         delivered = False
         try:
             if fault == "write_timeout" or (deadline is not None and t > deadline):
+                if fault != "write_timeout":
+                    w.stats["fault:natural_timeout"] += 1
                 self._deliver(n, self._prefix(data))
                 delivered = True
                 while w.now < deadline:
@@ -359,6 +374,8 @@ class Wire:
         if fault == "tls_timeout" and deadline is None:
             fault = "tls_error"
         if fault == "tls_timeout" or (deadline is not None and t > deadline):
+            if fault != "tls_timeout":
+                w.stats["fault:natural_timeout"] += 1
             while w.now < deadline:
                 yield deadline
             raise WireError("tls_timeout")
